@@ -269,11 +269,13 @@ class Frame(Formattable):
                 self_type = self.pyframe.f_locals["cls"]
             else:
                 return None
+            # (self_type is whatever the function was called with: looking at
+            # its attributes can fail in any way)
+            return getattr(self_type, "__qualname__", None) or getattr(
+                self_type, "__name__", None
+            )
         except Exception:
             return None
-        return getattr(self_type, "__qualname__", None) or getattr(
-            self_type, "__name__", None
-        )
 
     @property
     def modname(self) -> Optional[str]:
